@@ -15,3 +15,5 @@ def check(ctx: Ctx) -> None:
     # relies on argparse filling in what the client left out (argument_default=SUPPRESS would leave it out of the namespace)
     CT.r_parser_config(ctx, "R16.6")
     CT.r_total_indexing(ctx, "R16.7")
+    # every parameter of a member (but the receiver) is an argument of its command: the omitted-parameter default names 'self' and nothing else
+    CT.r_omitted_params(ctx, "R16.8")
